@@ -36,5 +36,13 @@ Theorem C06_mod_range_pos : forall x y, (0 < y)%R -> (0 <= rmod x y < y)%R.
 Proof. exact rmod_range_pos. Qed.
 Theorem C06_mod_range_neg : forall x y, (y < 0)%R -> (y < rmod x y <= 0)%R.
 Proof. exact rmod_range_neg. Qed.
+(* the fixed-point and rational views used by int(), the elementary functions and exact comparisons:
+   to_fixed is the floor of x * 2^prec for every precision (negative ones too), to_rational is the exact value *)
+From MP Require Import Proofs.FixedRat.
+Theorem C06_to_fixed_floor : forall s prec, fincanon s -> to_fixed s prec = Zfloor (rv s * bpow radix2 prec).
+Proof. exact to_fixed_floor. Qed.
+Print Assumptions C06_to_fixed_floor.
+Theorem C06_to_rational_exact : forall s p q, fincanon s -> to_rational s = Ok (p, q) -> 0 < q /\ rv s = (IZR p / IZR q)%R.
+Proof. exact to_rational_exact. Qed.
 Example C06_mod_witness : mpf_mod (Mpf 1 7 0 3) (Mpf 0 3 0 2) 53 RN = Ok (Mpf 0 1 1 1).   (* -7 mod 3 = 2 *)
 Proof. vm_compute. reflexivity. Qed.
